@@ -101,11 +101,17 @@ class Obj:
 
 
 class Closure:
-    def __init__(self, node, env, module):
+    def __init__(self, node, env, module, defaults=None):
         self.node, self.env, self.module = node, env, module
+        self.defaults = defaults        # {id(default expression): value}, evaluated where the function was defined
 
     def __repr__(self):
         return f"<closure {getattr(self.node, 'name', 'lambda')}>"
+
+
+class _NoDefault:
+    def __init__(self, reason):
+        self.reason = reason
 
 
 class Bound:
@@ -121,6 +127,11 @@ class PyFunc:
         return f"<py {self.name}>"
 
 
+_CONSUMERS = {"list", "tuple", "sorted", "sum", "min", "max", "set", "frozenset", "dict", "zip", "enumerate", "filter", "map",
+              "reduce", "Counter", "chain", "accumulate", "groupby", "starmap", "deque"}
+_NUMBER_CLASSES = {"Fraction": Fraction, "Number": __import__("numbers").Number, "Real": __import__("numbers").Real,
+                   "Rational": __import__("numbers").Rational, "Integral": __import__("numbers").Integral,
+                   "Complex": __import__("numbers").Complex}
 PY_TYPES = {"int": int, "float": float, "str": str, "tuple": tuple, "list": list, "dict": dict, "bool": bool,
             "complex": complex}
 
@@ -186,24 +197,35 @@ class Interp:
         self.isinstance_hook, self.attr_hook = isinstance_hook, attr_hook
         self.steps, self.max_steps = 0, max_steps
         self.depth = 0
+        self._fn_defaults: Dict[int, Any] = {}
+        self._keepalive: List[Any] = []
         self.opaque_calls = set(opaque_calls)
         self.trace: List[str] = []
         self.builtins = {
             "len": PyFunc(self._len, "len", True), "range": PyFunc(range, "range"), "abs": PyFunc(self._abs, "abs", True),
-            "tuple": PyFunc(tuple, "tuple", True), "list": PyFunc(list, "list", True), "dict": PyFunc(dict, "dict", True),
-            "sorted": PyFunc(self._sorted, "sorted", True), "min": PyFunc(min, "min"), "max": PyFunc(max, "max"),
+            "tuple": PyFunc(tuple, "tuple", True), "list": PyFunc(list, "list", True),
+            "dict": PyFunc(lambda *a, **k: dict(*[x.attrs["__store__"] if isinstance(x, Obj) and isinstance(x.attrs.get("__store__"), dict) else x for x in a], **k), "dict", True),
+            "sorted": PyFunc(self._sorted, "sorted", True), "min": PyFunc(lambda *a, **k: self._minmax(min, a, k), "min", True),
+            "max": PyFunc(lambda *a, **k: self._minmax(max, a, k), "max", True),
             "sum": PyFunc(self._sum, "sum", True), "int": ClassRef("int"), "float": ClassRef("float"), "str": ClassRef("str"),
             "bool": ClassRef("bool"), "complex": ClassRef("complex"),
             "isinstance": PyFunc(self._isinstance, "isinstance", True), "zip": PyFunc(lambda *a: list(zip(*a)), "zip", True),
             "enumerate": PyFunc(lambda a, start=0: list(enumerate(a, start)), "enumerate", True),
             "reversed": PyFunc(lambda a: list(reversed(a)), "reversed", True),
-            "any": PyFunc(lambda seq: any(self.truth(x) for x in list(seq)), "any", True),
-            "all": PyFunc(lambda seq: all(self.truth(x) for x in list(seq)), "all", True), "hasattr": PyFunc(self._hasattr, "hasattr", True), "format": PyFunc(self._format_builtin, "format", True),
+            "any": PyFunc(lambda seq: any(self.truth(x) for x in (_Consuming(seq) if isinstance(seq, GenList) else list(seq))), "any", True),
+            "all": PyFunc(lambda seq: all(self.truth(x) for x in (_Consuming(seq) if isinstance(seq, GenList) else list(seq))), "all", True), "hasattr": PyFunc(self._hasattr, "hasattr", True), "format": PyFunc(self._format_builtin, "format", True),
             "bin": PyFunc(bin, "bin"), "hex": PyFunc(hex, "hex"), "set": PyFunc(self._set, "set", True), "frozenset": PyFunc(lambda *a: frozenset(self._set(*a)) if not isinstance(self._set(*a), Unk) else Unk("frozenset"), "frozenset", True),
             "object": ClassRef("object"), "type": PyFunc(self._type, "type", True), "id": PyFunc(lambda o: id(o), "id", True), "slice": PyFunc(slice, "slice"), "Ellipsis": Ellipsis,
             "filter": PyFunc(lambda f, seq: [x for x in list(seq) if self.truth(self.call(f, [x], {}) if f is not None else x)], "filter", True),
             "map": PyFunc(lambda f, *seqs: [self.call(f, list(xs), {}) for xs in zip(*[list(q) for q in seqs])], "map", True), "iter": PyFunc(self._iter, "iter", True), "next": PyFunc(self._next, "next", True),
             "print": PyFunc(lambda *a, **k: None, "print", True),
+            "exec": PyFunc(lambda *a, **k: (_ for _ in ()).throw(NoValue("exec of generated source (no stub installed)")), "exec", True),
+            "eval": PyFunc(lambda *a, **k: (_ for _ in ()).throw(NoValue("eval of a string (no stub installed)")), "eval", True),
+            "compile": PyFunc(lambda *a, **k: (_ for _ in ()).throw(NoValue("compile of generated source (no stub installed)")), "compile", True),
+            "round": PyFunc(round, "round"), "divmod": PyFunc(divmod, "divmod"), "pow": PyFunc(self._pow, "pow", True),
+            "oct": PyFunc(oct, "oct"), "chr": PyFunc(chr, "chr"), "ord": PyFunc(ord, "ord"), "ascii": PyFunc(ascii, "ascii"),
+            "repr": PyFunc(lambda v: (lambda t: t if t is not None else Unk("repr"))(self.format_value(v, "", 114)), "repr", True),
+            "issubclass": PyFunc(self._issubclass, "issubclass", True),
             "getattr": PyFunc(self._getattr, "getattr", True),
             "setattr": PyFunc(self._setattr, "setattr", True),
             "callable": PyFunc(self._callable, "callable", True),
@@ -249,6 +271,8 @@ class Interp:
                                                            (lambda o: tuple(self.getattr_value(o, n) for n in names)), "attrgetter", True), "operator.attrgetter", True),
                 "methodcaller": PyFunc(lambda name, *a, **k: PyFunc(lambda o: self.call(self.getattr_value(o, name), list(a), k), "methodcaller", True), "operator.methodcaller", True),
             }),
+            "math": Obj("module:math", {n: (PyFunc(getattr(__import__("math"), n), f"math.{n}") if callable(getattr(__import__("math"), n))
+                                            else getattr(__import__("math"), n)) for n in dir(__import__("math")) if not n.startswith("_")}),
             "warnings": Obj("module:warnings", {"warn": PyFunc(lambda *a, **k: None, "warn", True)}),
             "re": Obj("module:re", {"match": PyFunc(lambda p, s, *a: re.match(p, s), "re.match"),
                                     "search": PyFunc(lambda p, s, *a: re.search(p, s), "re.search"),
@@ -263,7 +287,11 @@ class Interp:
             "functools.cache": PyFunc(self._lru_cache, "cache", True),
             "functools.partial": PyFunc(lambda f, *a, **k: Obj("partial", {"fmt": "<partial>"}, call=lambda *a2, **k2: self.call(f, list(a) + list(a2), {**k, **k2})), "partial", True),
             **{f"itertools.{k}": v for k, v in self._itertools().items()},
-            "collections.namedtuple": PyFunc(lambda name, fields, **k: PyFunc(lambda *a, **kw: tuple(a) + tuple(kw[f] for f in fields[len(a):]), name, True), "namedtuple", True),
+            "collections.namedtuple": PyFunc(self._namedtuple, "namedtuple", True),
+            "fractions.Fraction": PyFunc(Fraction, "Fraction"),
+            "collections.deque": PyFunc(lambda *a, **k: __import__("collections").deque(*a, **k), "deque"),
+            "collections.OrderedDict": PyFunc(lambda *a, **k: __import__("collections").OrderedDict(*a, **k), "OrderedDict"),
+            "collections.defaultdict": PyFunc(self._defaultdict, "defaultdict", True),
             "sympy.utilities.iterables.iterable": PyFunc(lambda x, *a, **k: isinstance(x, (list, tuple, set, dict)), "iterable", True),
             "sympy.utilities.iterables.flatten": PyFunc(lambda x, *a, **k: _flatten(x), "flatten", True),
             "inspect": Obj("module:inspect", {
@@ -272,8 +300,9 @@ class Interp:
             "keyword": Obj("module:keyword", {"iskeyword": PyFunc(__import__("keyword").iskeyword, "iskeyword")}),
             "builtins": Obj("module:builtins"),
             "itertools": Obj("module:itertools", dict(self._itertools())),
-            "collections.Counter": PyFunc(lambda x=(): __import__("collections").Counter(x), "Counter"),
-            "dataclasses.fields": PyFunc(lambda o: [], "fields", True),
+            "collections.Counter": PyFunc(lambda *a, **k: __import__("collections").Counter(*a, **k), "Counter"),
+            "dataclasses.fields": PyFunc(self._dataclass_fields, "fields", True),
+            "dataclasses.replace": PyFunc(self._dataclass_replace, "replace", True),
             "string": Obj("module:string", {"ascii_lowercase": "abcdefghijklmnopqrstuvwxyz",
                                             "ascii_uppercase": "ABCDEFGHIJKLMNOPQRSTUVWXYZ"}),
         }
@@ -370,6 +399,8 @@ class Interp:
         if isinstance(v, Obj):
             if "__len__" in v.methods:
                 return v.methods["__len__"]()
+            if isinstance(v.attrs.get("__fields__"), list):
+                return len(v.attrs["__fields__"])
             if v.kind in self.instance_classes:
                 d = self._class_def(v.kind, "__len__")
                 if isinstance(d, ast.FunctionDef):
@@ -435,6 +466,124 @@ class Interp:
                 return cls
             return PyFunc(lambda g: (registry.append((cls, g)), g)[1], "register(cls)", True)
         return Obj("singledispatch", {"fmt": "<singledispatch>", "register": PyFunc(register, "register", True), "__wrapped__": f}, call=call)
+
+    def _exception_ancestors(self, name):
+        """The class and its base classes by name: Python's own hierarchy for built-in exceptions, the `class X(Base)`
+        statements of the repository for its own."""
+        import builtins
+        out, todo = [], [name]
+        while todo:
+            n = todo.pop()
+            if n in out:
+                continue
+            out.append(n)
+            c = getattr(builtins, n, None)
+            if isinstance(c, type) and issubclass(c, BaseException):
+                out.extend(b.__name__ for b in c.__mro__ if b.__name__ not in out and b is not object)
+                continue
+            found = False
+            for mod in self.repo.modules.values():
+                for st in mod.tree.body:
+                    if isinstance(st, ast.ClassDef) and st.name == n:
+                        todo.extend(un(b).split(".")[-1] for b in st.bases)
+                        found = True
+            if not found:
+                out.extend(x for x in ("Exception", "BaseException") if x not in out)     # an unknown class: at least an Exception
+        return out
+
+    def _dataclass_fields(self, o):
+        kind = o.kind if isinstance(o, Obj) else getattr(o, "name", None)
+        if kind not in self.instance_classes and kind is not None:
+            for mname, mod in self.repo.modules.items():
+                if any(isinstance(st, ast.ClassDef) and st.name == kind for st in mod.tree.body):
+                    self.instance_classes.setdefault(kind, f"{mname}.{kind}")
+        if kind not in self.instance_classes:
+            return Unk("fields")
+        out = []
+        for st in self.repo.cls(self.instance_classes[kind]).body:
+            if isinstance(st, ast.AnnAssign) and isinstance(st.target, ast.Name) and "ClassVar" not in un(st.annotation):
+                attrs = {"name": st.target.id, "type": un(st.annotation), "init": True, "compare": True, "repr": True, "metadata": {},
+                         "fmt": f"Field({st.target.id})"}
+                if isinstance(st.value, ast.Call) and un(st.value.func).split(".")[-1] == "field":
+                    for kw in st.value.keywords:
+                        if kw.arg in ("init", "compare", "repr", "metadata"):
+                            try:
+                                attrs[kw.arg] = ast.literal_eval(kw.value)
+                            except Exception:
+                                attrs[kw.arg] = Unk(kw.arg)
+                out.append(Obj("Field", attrs))
+        return tuple(out)
+
+    def _dataclass_replace(self, o, **changes):
+        flds = self._dataclass_fields(o)
+        if isinstance(flds, Unk) or not isinstance(o, Obj):
+            return Unk("replace")
+        kwargs = {}
+        for f in flds:
+            n = f.attrs["name"]
+            if f.attrs["init"] is not True:
+                if n in changes:
+                    raise Raised("ValueError")
+                continue
+            kwargs[n] = changes[n] if n in changes else o.attrs.get(n)
+        if set(changes) - {f.attrs["name"] for f in flds}:
+            raise Raised("TypeError")
+        return self.call(ClassRef(o.kind), [], kwargs)
+
+    def _pow(self, a, b, *mod):
+        if mod:
+            if _concrete([a, b, mod[0]]):
+                return pow(a, b, mod[0])
+            return Unk("pow")
+        return self.binop(ast.Pow(), a, b)
+
+    def _issubclass(self, c, bases):
+        bases = bases if isinstance(bases, tuple) else (bases,)
+        names = [getattr(x, "name", None) for x in (c,) + tuple(bases)]
+        if all(n in _BUILTIN_TYPES or n in ("bool", "object") for n in names):
+            real = {**_BUILTIN_TYPES, "bool": bool, "object": object}
+            return issubclass(real[names[0]], tuple(real[n] for n in names[1:]))
+        if names[0] is not None and names[0] in names[1:]:
+            return True
+        return Unk("issubclass")
+
+    def _minmax(self, which, a, k):
+        key = k.get("key")
+        seq = a[0] if len(a) == 1 else list(a)
+        seq = self._iterable(seq)
+        if isinstance(seq, (Unk, T, Obj)):
+            return Unk(which.__name__)
+        items = list(seq)
+        if isinstance(seq, GenList):
+            del seq[:]
+        if not items:
+            if "default" in k:
+                return k["default"]
+            raise Raised("ValueError")
+        keys = [self.call(key, [x], {}) for x in items] if key is not None else items
+        if not _concrete(keys):
+            return Unk(which.__name__)
+        try:
+            best = which(range(len(items)), key=lambda i: keys[i])
+        except TypeError:
+            raise Raised("TypeError")
+        return items[best]
+
+    def _namedtuple(self, name, fields, **k):
+        """collections.namedtuple(name, fields): a real named-tuple class; its instances are tuples whose items may be
+        abstract values."""
+        import collections
+        try:
+            cls = collections.namedtuple(name, fields, **{kk: v for kk, v in k.items() if kk in ("defaults", "rename")})
+        except (TypeError, ValueError):
+            raise Raised("ValueError")
+        return PyFunc(lambda *a, **kw: cls(*a, **kw), name, True)
+
+    def _defaultdict(self, factory=None, *a, **k):
+        import collections
+        if factory is None:
+            return collections.defaultdict(None, *a, **k)
+        return collections.defaultdict(lambda: self.call(factory, [], {}), *a, **k)
 
     def _lru_cache(self, *a, **k):
         """functools.lru_cache / cache with Python's semantics: results are remembered per (hashable) argument tuple for
@@ -555,8 +704,17 @@ class Interp:
     def _iterable(self, v):
         if isinstance(v, Obj) and "__iter__" in v.methods:
             return list(v.methods["__iter__"]())
+        if isinstance(v, Obj) and isinstance(v.attrs.get("__store__"), dict) and v.kind in self.instance_classes \
+                and self._class_def(v.kind, "__iter__") is None:
+            return list(v.attrs["__store__"])             # a dict subclass iterates over its keys
         if isinstance(v, Obj) and isinstance(v.attrs.get("__fields__"), list):
             return tuple(v.attrs.get(f) for f in v.attrs["__fields__"])
+        if isinstance(v, Obj) and v.kind in self.instance_classes:
+            d = self._class_def(v.kind, "__iter__")
+            if isinstance(d, ast.FunctionDef):
+                r = self.call_function(d, [v], {}, {}, self.instance_classes[v.kind].split(".")[0])
+                if isinstance(r, (list, tuple, GenList)):
+                    return r
         return v
 
     def _hasattr(self, v, name):
@@ -570,7 +728,17 @@ class Interp:
             if name in v.attrs or name in v.methods:
                 return True
             if v.kind in self.instance_classes:
-                return self._class_def(v.kind, name) is not None
+                if self._class_def(v.kind, name) is not None:
+                    return True
+                if self._class_def(v.kind, "__getattr__") is not None or "__getattr__" in v.methods:
+                    try:                    # hasattr is "getattr does not raise AttributeError"
+                        self.getattr_value(v, name)
+                        return True
+                    except Raised as r:
+                        if r.name == "AttributeError":
+                            return False
+                        raise
+                return False
             return False
         if isinstance(v, T):
             return name in self.tables.get(v.cls, {})
@@ -650,8 +818,14 @@ class Interp:
                 continue
             if isinstance(v, Unk):
                 return Unk("isinstance")
+            if name == "tuple" and isinstance(v, Obj) and isinstance(v.attrs.get("__fields__"), list):
+                return True                      # an instance of a NamedTuple class
             if name in PY_TYPES:
                 if isinstance(v, PY_TYPES[name]) and not (name == "list" and isinstance(v, GenList)):
+                    return True
+                continue
+            if name in _NUMBER_CLASSES and not isinstance(v, (Obj, Closure, PyFunc, Bound, ClassRef)):
+                if isinstance(v, _NUMBER_CLASSES[name]):
                     return True
                 continue
             if name in ("Callable",):
@@ -906,6 +1080,20 @@ class Interp:
                 return a() if callable(a) and not isinstance(a, (PyFunc, Closure, Bound, ClassRef, Obj, T)) else a
             if name in v.methods:
                 return PyFunc(v.methods[name], f"{v.kind}.{name}", True)
+            if isinstance(v.attrs.get("__fields__"), list) and name in ("_replace", "_asdict", "_fields"):
+                flds = v.attrs["__fields__"]
+                if name == "_fields":
+                    return tuple(flds)
+                if name == "_asdict":
+                    return PyFunc(lambda: {f: v.attrs.get(f) for f in flds}, "_asdict", True)
+
+                def _replace(**kw):
+                    if set(kw) - set(flds):
+                        raise Raised("ValueError")
+                    o = Obj(v.kind, dict(v.attrs))
+                    o.attrs.update(kw)
+                    return o
+                return PyFunc(_replace, "_replace", True)
             if "__getattr__" in v.methods:
                 return v.methods["__getattr__"](name)
             if v.kind in self.instance_classes:
@@ -918,6 +1106,9 @@ class Interp:
             return Unk(f"{v.kind}.{name}")
         if isinstance(v, Unk):
             return Unk(f"{v.desc}.{name}")
+        if isinstance(v, PyFunc) and v.name in ("dict", "list", "tuple", "str", "int", "float", "set", "frozenset") \
+                and hasattr(_BUILTIN_TYPES.get(v.name, object), name):
+            return PyFunc(getattr(_BUILTIN_TYPES[v.name], name), f"{v.name}.{name}")      # dict.fromkeys, str.join, int.from_bytes, ...
         if isinstance(v, Closure):
             if name == "__code__":
                 a = v.node.args
@@ -941,17 +1132,26 @@ class Interp:
             return Unk(f"{v.name}.{name}")
         if isinstance(v, (list, tuple, dict, str, set, frozenset)) and name == "__class__":
             return ClassRef(type(v).__name__ if not isinstance(v, GenList) else "generator")
+        if isinstance(v, tuple) and name in getattr(v, "_fields", ()):
+            return getattr(v, name)                        # a field of a named tuple
+        if isinstance(v, tuple) and name == "_fields" and hasattr(v, "_fields"):
+            return v._fields
         if isinstance(v, (list, tuple, dict, str, set, frozenset)) and hasattr(v, name):
             return PyFunc(getattr(v, name), name, True)
         if isinstance(v, (re.Pattern, re.Match)) and hasattr(v, name):
             a = getattr(v, name)
             return PyFunc(a, f"re.{name}") if callable(a) else a
-        if isinstance(v, (int, float, Fraction)):
+        if isinstance(v, (int, float, Fraction, complex)):
             if name in ("e",):
                 return v
             if hasattr(v, name):
-                return PyFunc(getattr(v, name), name)
+                a = getattr(v, name)
+                return PyFunc(a, name) if callable(a) else a          # numerator, real, imag, ... are values
             raise Raised("AttributeError", node)
+        import collections as _c
+        if isinstance(v, (_c.deque, _c.Counter, _c.OrderedDict, _c.defaultdict, range, slice, bytes)) and hasattr(v, name):
+            a = getattr(v, name)
+            return PyFunc(a, name, True) if callable(a) else a
         return Unk(name)
 
     def _instantiate(self, name, args, kwargs):
@@ -995,9 +1195,21 @@ class Interp:
             o.methods["keys"] = lambda store=store: list(store.keys())
             o.methods["items"] = lambda store=store: list(store.items())
             o.methods["values"] = lambda store=store: list(store.values())
+        new = self._class_def(name, "__new__")
+        if isinstance(new, ast.FunctionDef):
+            made = self.call_function(new, [ClassRef(name)] + list(args), kwargs, {}, qual.split(".")[0])
+            if not (isinstance(made, Obj) and made.kind == name):
+                return made                       # __new__ returned something else: __init__ is not run
+            made.attrs.update({k: v for k, v in o.attrs.items() if k not in made.attrs})
+            made.methods.update({k: v for k, v in o.methods.items() if k not in made.methods})
+            if made.getitem is None:
+                made.getitem = o.getitem
+            o = made
         init = self._class_def(name, "__init__")
         if isinstance(init, ast.FunctionDef):
             self.call_function(init, [o] + list(args), kwargs, {}, qual.split(".")[0])
+        elif isinstance(new, ast.FunctionDef):
+            pass
         else:
             cls = self.repo.cls(qual)
             fields = [st.target.id for st in cls.body if isinstance(st, ast.AnnAssign) and isinstance(st.target, ast.Name)
@@ -1006,6 +1218,9 @@ class Interp:
             vals.update(kwargs)
             o.attrs.update(vals)
             for st in cls.body:
+                if isinstance(st, ast.AnnAssign) and isinstance(st.target, ast.Name) and st.target.id not in o.attrs \
+                        and st.value is not None and not (isinstance(st.value, ast.Call) and un(st.value.func).split(".")[-1] == "field"):
+                    o.attrs[st.target.id] = self._default(st.value, None, {}, qual.split(".")[0])      # `name: type = default`
                 if isinstance(st, ast.AnnAssign) and isinstance(st.target, ast.Name) and st.target.id not in o.attrs \
                         and isinstance(st.value, ast.Call):
                     for kw in st.value.keywords:
@@ -1037,6 +1252,14 @@ class Interp:
                         self._import_origin(mod, un(b).split(".")[-1]) == "NamedTuple" for b in st.bases):
                     return [x.target.id for x in st.body if isinstance(x, ast.AnnAssign) and isinstance(x.target, ast.Name)]
         return None
+
+    def _namedtuple_defaults(self, name):
+        for mname, mod in self.repo.modules.items():
+            for st in mod.tree.body:
+                if isinstance(st, ast.ClassDef) and st.name == name and self._namedtuple_fields(name) is not None:
+                    return {x.target.id: (x.value, mname) for x in st.body
+                            if isinstance(x, ast.AnnAssign) and isinstance(x.target, ast.Name) and x.value is not None}
+        return {}
 
     def _class_def(self, cls_name, attr):
         """Definition of `attr` in the class body (follows one level of class-level aliasing)."""
@@ -1115,13 +1338,32 @@ class Interp:
         if self.steps > self.max_steps:
             raise NoValue("step limit")
         if isinstance(f, Closure):
-            return self.call_function(f.node, args, kwargs, f.env, f.module)
+            return self.call_function(f.node, args, kwargs, f.env, f.module, f.defaults)
         if isinstance(f, Bound):
             return self._method(f.obj, f.name, args, kwargs, node)
         if isinstance(f, PyFunc):
             if not f.symbolic and not (_concrete(args) and _concrete(kwargs)):
                 return Unk(f.name)
+            if f.name in _CONSUMERS and any(isinstance(a, Obj) for a in args):
+                args = [(a.attrs["__store__"] if f.name == "dict" and isinstance(a.attrs.get("__store__"), dict) else self._iterable(a))
+                        if isinstance(a, Obj) else a for a in args]     # instances that define iteration
             try:
+                if f.name in _CONSUMERS and any(isinstance(a, GenList) for a in args):
+                    # a generator / iterator object handed to a consumer is used up by it (Python's iterator protocol)
+                    snapshot = [list(a) if isinstance(a, GenList) else a for a in args]
+                    r = f.fn(*snapshot, **kwargs)
+                    if f.name == "zip":
+                        n = len(r)
+                        lens = [len(a) for a in snapshot]
+                        first_short = lens.index(n) if n in lens else len(lens)
+                        for i, a in enumerate(args):
+                            if isinstance(a, GenList):
+                                del a[:n + (1 if i < first_short and len(a) > n else 0)]
+                    else:
+                        for a in args:
+                            if isinstance(a, GenList):
+                                del a[:]
+                    return r
                 return f.fn(*args, **kwargs)
             except (Raised, NoValue):
                 raise
@@ -1152,7 +1394,15 @@ class Interp:
             if fields is not None:
                 vals = dict(zip(fields, args))
                 vals.update(kwargs)
-                o = Obj(f.name, {k: vals.get(k) for k in fields})
+                if len(args) > len(fields) or set(kwargs) - set(fields):
+                    raise Raised("TypeError", node)
+                for k, (dnode, dmod) in self._namedtuple_defaults(f.name).items():
+                    if k not in vals:
+                        vals[k] = self._default(dnode, None, {}, dmod)
+                missing = [k for k in fields if k not in vals]
+                if missing:
+                    raise Raised("TypeError", node)          # a required field was not given
+                o = Obj(f.name, {k: vals[k] for k in fields})
                 o.attrs["__fields__"] = fields
                 return o
             if f.name in ("list", "tuple") and len(args) == 1 and isinstance(args[0], (list, tuple, GenList)):
@@ -1178,7 +1428,30 @@ class Interp:
             return Unk("call of multivector")
         return Unk("call")
 
-    def call_function(self, fn, args, kwargs, closure_env, module):
+    def _eval_defaults(self, fn, env):
+        """Default values are computed once, where the function is defined (a gap there only matters if the default is used)."""
+        out = {}
+        for d in list(fn.args.defaults) + [k for k in fn.args.kw_defaults if k is not None]:
+            try:
+                out[id(d)] = self.eval(d, env)
+            except NoValue as exc:
+                out[id(d)] = _NoDefault(str(exc))
+        return out
+
+    def _default(self, d, defaults, closure_env, module):
+        if defaults is None:
+            # a function of the repository (module level / method): its defaults are evaluated once per interpreter, so a
+            # mutable default is one object shared by all calls - as in Python
+            defaults = self._fn_defaults
+        if id(d) not in defaults:
+            defaults[id(d)] = self.eval(d, Env({}, closure_env, module, self))
+            self._keepalive.append(d)
+        v = defaults[id(d)]
+        if isinstance(v, _NoDefault):
+            raise NoValue(v.reason)
+        return v
+
+    def call_function(self, fn, args, kwargs, closure_env, module, defaults=None):
         self.depth += 1
         if self.depth > 40:
             raise NoValue("recursion limit")
@@ -1186,7 +1459,7 @@ class Interp:
             env: Dict[str, Any] = {}
             a = fn.args
             pos = a.posonlyargs + a.args
-            defaults = [None] * (len(pos) - len(a.defaults)) + list(a.defaults)
+            pos_defaults = [None] * (len(pos) - len(a.defaults)) + list(a.defaults)
             if len(args) > len(pos) and not a.vararg:
                 raise Raised("TypeError", fn)
             for i, p in enumerate(pos):
@@ -1194,8 +1467,8 @@ class Interp:
                     env[p.arg] = args[i]
                 elif p.arg in kwargs:
                     env[p.arg] = kwargs[p.arg]
-                elif defaults[i] is not None:
-                    env[p.arg] = self.eval(defaults[i], Env({}, closure_env, module, self))
+                elif pos_defaults[i] is not None:
+                    env[p.arg] = self._default(pos_defaults[i], defaults, closure_env, module)
                 else:
                     raise Raised("TypeError", fn)
             if a.vararg:
@@ -1204,7 +1477,7 @@ class Interp:
                 if p.arg in kwargs:
                     env[p.arg] = kwargs[p.arg]
                 elif d is not None:
-                    env[p.arg] = self.eval(d, Env({}, closure_env, module, self))
+                    env[p.arg] = self._default(d, defaults, closure_env, module)
                 else:
                     raise Raised("TypeError", fn)
             known = {p.arg for p in pos} | {p.arg for p in a.kwonlyargs}
@@ -1250,7 +1523,29 @@ class Interp:
                 self.assign(st.target, self.eval(st.value, env), env)
         elif isinstance(st, ast.AugAssign):
             cur = self.eval(_load(st.target), env)
-            self.assign(st.target, self.binop(st.op, cur, self.eval(st.value, env), st), env)
+            rhs = self.eval(st.value, env)
+            # lists, sets and dicts are updated IN PLACE (every alias sees it); everything else is rebound
+            if isinstance(cur, list) and not isinstance(cur, GenList) and isinstance(st.op, ast.Add):
+                it = self._iterable(rhs)
+                if isinstance(it, (Unk, T, Obj)):
+                    raise NoValue("list += unknown iterable")
+                items = list(it)
+                if isinstance(it, GenList):
+                    del it[:]
+                cur.extend(items)
+                self.assign(st.target, cur, env)
+            elif isinstance(cur, list) and not isinstance(cur, GenList) and isinstance(st.op, ast.Mult) and isinstance(rhs, int):
+                cur[:] = cur * rhs
+                self.assign(st.target, cur, env)
+            elif isinstance(cur, set) and isinstance(rhs, (set, frozenset)) and isinstance(st.op, (ast.BitOr, ast.BitAnd, ast.Sub, ast.BitXor)):
+                {ast.BitOr: cur.update, ast.BitAnd: cur.intersection_update, ast.Sub: cur.difference_update,
+                 ast.BitXor: cur.symmetric_difference_update}[type(st.op)](rhs)
+                self.assign(st.target, cur, env)
+            elif isinstance(cur, dict) and isinstance(rhs, dict) and isinstance(st.op, ast.BitOr):
+                cur.update(rhs)
+                self.assign(st.target, cur, env)
+            else:
+                self.assign(st.target, self.binop(st.op, cur, rhs, st), env)
         elif isinstance(st, ast.If):
             if self.truth(self.eval(st.test, env), st.test):
                 self.exec_block(st.body, env)
@@ -1286,6 +1581,7 @@ class Interp:
                 self.exec_block(st.orelse, env)
         elif isinstance(st, ast.While):
             n = 0
+            broke = False
             while self.truth(self.eval(st.test, env), st.test):
                 n += 1
                 if n > 256:
@@ -1293,17 +1589,30 @@ class Interp:
                 try:
                     self.exec_block(st.body, env)
                 except _Break:
+                    broke = True
                     break
                 except _Continue:
                     continue
+            if not broke:
+                self.exec_block(st.orelse, env)
         elif isinstance(st, ast.Break):
             raise _Break()
         elif isinstance(st, ast.Continue):
             raise _Continue()
         elif isinstance(st, ast.Pass):
             pass
+        elif isinstance(st, ast.Nonlocal):
+            env.nonlocals = getattr(env, "nonlocals", set()) | set(st.names)
+        elif isinstance(st, ast.Global):
+            env.globals_ = getattr(env, "globals_", set()) | set(st.names)
         elif isinstance(st, (ast.FunctionDef,)):
-            env.local[st.name] = Closure(st, env.flat(), env.module)
+            f = Closure(st, env.flat(), env.module, self._eval_defaults(st, env))
+            for deco in reversed(st.decorator_list):
+                d = self.eval(deco, env)
+                if isinstance(d, Unk):
+                    raise NoValue(f"decorator {un(deco)} of the nested function {st.name} is not understood")
+                f = self.call(d, [f], {})
+            env.local[st.name] = f
         elif isinstance(st, ast.Import):
             for al in st.names:
                 env.local[(al.asname or al.name).split(".")[0]] = self.standins.get(al.name, Obj("module:" + al.name))
@@ -1354,8 +1663,7 @@ class Interp:
                         if h.type is not None:
                             for t in (h.type.elts if isinstance(h.type, ast.Tuple) else [h.type]):
                                 names.append(un(t).split(".")[-1])
-                        if h.type is None or r.name in names or "Exception" in names or "BaseException" in names \
-                                or (r.name in ("IndexError", "KeyError") and "LookupError" in names):
+                        if h.type is None or any(n in names for n in self._exception_ancestors(r.name)):
                             if h.name:
                                 env.local[h.name] = Obj("exception:" + r.name)
                             self.exec_block(h.body, env)
@@ -1371,7 +1679,7 @@ class Interp:
 
     def assign(self, target, value, env):
         if isinstance(target, ast.Name):
-            env.local[target.id] = value
+            env.bind(target.id, value)
         elif isinstance(target, (ast.Tuple, ast.List)):
             if isinstance(value, Obj) and isinstance(value.attrs.get("__fields__"), list):
                 value = tuple(value.attrs.get(f) for f in value.attrs["__fields__"])      # a NamedTuple instance is a tuple
@@ -1509,10 +1817,13 @@ class Interp:
                 return Unk("slice")
             return slice(*parts)
         if isinstance(node, ast.Lambda):
-            return Closure(node, env.flat(), env.module)
+            return Closure(node, env.flat(), env.module, self._eval_defaults(node, env))
         if isinstance(node, ast.NamedExpr):
             v = self.eval(node.value, env)
-            env.local[node.target.id] = v
+            scope = env
+            while getattr(scope, "comprehension_of", None) is not None:
+                scope = scope.comprehension_of          # PEP 572: the target lives in the scope containing the comprehension
+            scope.local[node.target.id] = v
             return v
         if isinstance(node, ast.JoinedStr):
             parts = []
@@ -1571,6 +1882,29 @@ class Interp:
             if r is not NotImplemented:
                 return r
         if isinstance(op, (ast.Eq, ast.NotEq)):
+            ta = tuple(a.attrs.get(f) for f in a.attrs["__fields__"]) if isinstance(a, Obj) and isinstance(a.attrs.get("__fields__"), list) else a
+            tb = tuple(b.attrs.get(f) for f in b.attrs["__fields__"]) if isinstance(b, Obj) and isinstance(b.attrs.get("__fields__"), list) else b
+            if (ta is not a or tb is not b) and isinstance(ta, tuple) and isinstance(tb, tuple) and _concrete(ta) and _concrete(tb):
+                return (ta == tb) if isinstance(op, ast.Eq) else (ta != tb)      # a NamedTuple instance is a tuple
+        if isinstance(op, (ast.In, ast.NotIn)) and isinstance(b, Obj) and b.kind in self.instance_classes and "__contains__" not in b.methods:
+            fn = self._class_def(b.kind, "__contains__")
+            if isinstance(fn, ast.FunctionDef):
+                r = self.call_function(fn, [b, a], {}, {}, self.instance_classes[b.kind].split(".")[0])
+                if isinstance(r, Unk):
+                    return r
+                r = self.truth(r, node)
+                return r if isinstance(op, ast.In) else not r
+        if isinstance(op, (ast.Lt, ast.LtE, ast.Gt, ast.GtE)):
+            direct = {ast.Lt: "__lt__", ast.LtE: "__le__", ast.Gt: "__gt__", ast.GtE: "__ge__"}[type(op)]
+            mirror = {ast.Lt: "__gt__", ast.LtE: "__ge__", ast.Gt: "__lt__", ast.GtE: "__le__"}[type(op)]
+            for o, other, dn in ((a, b, direct), (b, a, mirror)):
+                if isinstance(o, Obj) and o.kind in self.instance_classes and "compare" not in o.methods:
+                    fn = self._class_def(o.kind, dn)
+                    if isinstance(fn, ast.FunctionDef):
+                        r = self.call_function(fn, [o, other], {}, {}, self.instance_classes[o.kind].split(".")[0])
+                        if r is not NotImplemented:
+                            return r
+        if isinstance(op, (ast.Eq, ast.NotEq)):
             for o, other in ((a, b), (b, a)):
                 if isinstance(o, Obj) and o.kind in self.instance_classes:
                     fn = self._class_def(o.kind, "__eq__")
@@ -1580,6 +1914,13 @@ class Interp:
                             return r
                         r = self.truth(r, node)
                         return r if isinstance(op, ast.Eq) else not r
+        if isinstance(op, (ast.In, ast.NotIn)) and isinstance(b, GenList) and _concrete(a):
+            found = False
+            while b:
+                if b.pop(0) == a:
+                    found = True
+                    break
+            return found if isinstance(op, ast.In) else not found
         if isinstance(op, (ast.In, ast.NotIn)) and isinstance(b, Obj) and "__contains__" in b.methods and not isinstance(a, Unk):
             r = bool(b.methods["__contains__"](a))
             return r if isinstance(op, ast.In) else not r
@@ -1639,6 +1980,7 @@ class Interp:
     def comprehension(self, node, env):
         results = []
         sub = Env({}, env.flat(), env.module, self)
+        sub.comprehension_of = env
 
         def rec(i):
             if i == len(node.generators):
@@ -1651,7 +1993,7 @@ class Interp:
             it = self._iterable(self.eval(g.iter, sub))
             if isinstance(it, (Unk, T, Obj)):
                 raise NoValue(f"comprehension over unknown iterable {un(g.iter)}")
-            for x in list(it):
+            for x in (_Consuming(it) if isinstance(it, GenList) else list(it)):
                 self.assign(g.target, x, sub)
                 if all(self.truth(self.eval(c, sub), c) for c in g.ifs):
                     rec(i + 1)
@@ -1704,6 +2046,23 @@ class Env:
         return _Live(self)
 
     yielded = None
+    nonlocals: frozenset = frozenset()
+    globals_: frozenset = frozenset()
+    comprehension_of = None
+
+    def bind(self, name, value):
+        if name in self.globals_:
+            self.interp.module_state[self.module, name] = value
+            return
+        if name in self.nonlocals:
+            scope = self.closure
+            while isinstance(scope, _Live):
+                if name in scope._env.local:
+                    scope._env.local[name] = value
+                    return
+                scope = scope._env.closure
+            raise NoValue(f"nonlocal {name} has no binding in an enclosing function")
+        self.local[name] = value
 
     def yield_target(self):
         if self.yielded is None:
@@ -1720,6 +2079,8 @@ class Env:
             return self.closure[name]
         interp = self.interp
         repo = interp.repo
+        if (self.module, name) in interp.module_state:
+            return interp.module_state[self.module, name]
         if self.module in repo.modules:
             q = f"{self.module}.{name}"
             if q in interp.overrides:
